@@ -106,6 +106,17 @@ func gen(t *rapid.T) Case {
 		ev.Count("cli", "repaired_lines", reps)
 
 		cmd := Cmd{Text: sim.GenCommand(t), Out: lines}
+
+		// the device must receive exactly the command, also its outer and doubled blanks
+		switch rapid.IntRange(0, 9).Draw(t, "cmdBlanks") {
+		case 0:
+			cmd.Text = "  " + cmd.Text
+		case 1:
+			cmd.Text += " "
+		case 2:
+			cmd.Text = strings.Replace(cmd.Text, " ", "  ", 1) + "  "
+		}
+
 		c.Cmds = append(c.Cmds, cmd)
 
 		for _, l := range lines {
@@ -119,6 +130,14 @@ func gen(t *rapid.T) Case {
 		c.Echo = sim.Echo{
 			Every:  rapid.IntRange(4, 12).Draw(t, "wrapEvery"),
 			Insert: rapid.SampledFrom([]string{" \r", "\r\n", " \b", "\r\n...", "\r"}).Draw(t, "wrapIns"),
+		}
+
+		if strings.Contains(c.Echo.Insert, " ") {
+			// same precondition for the blank some terminals interleave: it must not be able to
+			// stand in for a trailing blank of the command
+			for i := range c.Cmds {
+				c.Cmds[i].Text = strings.TrimRight(c.Cmds[i].Text, " ")
+			}
 		}
 
 		if strings.Contains(c.Echo.Insert, ".") {
